@@ -41,6 +41,7 @@ type C03Scenario struct {
 	FilterOp *C03Op    `json:"filter_op,omitempty"`
 	HookOp   *C03Op    `json:"hook_op,omitempty"`
 	Persist  bool      `json:"persist"`
+	Panics   bool      `json:"panics,omitempty"` // handlers panic for events whose id is even
 	Obs      bool      `json:"obs,omitempty"`
 }
 
@@ -70,6 +71,7 @@ func genC03(rt *rapid.T) core.Scenario {
 	copy(sc.Types[:], perm[:3])
 	sc.Persist = rapid.Bool().Draw(rt, "persist")
 	sc.Obs = rapid.IntRange(0, 3).Draw(rt, "obs") == 3
+	sc.Panics = rapid.IntRange(0, 3).Draw(rt, "panics") == 3
 	kinds := c03Kinds
 	if sc.Persist {
 		kinds = append(append([]string{}, c03Kinds...), c03PersistKinds...)
@@ -189,6 +191,9 @@ func (sc *C03Scenario) Execute(t *testing.T) *core.Outcome {
 				for _, op := range sc.Script {
 					reenter(op)
 				}
+			}
+			if sc.Panics && id%2 == 0 {
+				panic("handler panic (recovered by the bus)")
 			}
 		}
 		if sc.FilterOp != nil {
